@@ -296,13 +296,20 @@ def proof_coverage(ps: ProofStatus) -> Dict[str, Any]:
 
 
 def pick(findings: List[Dict[str, Any]], limit: int, per_key: int = 3) -> List[Dict[str, Any]]:
-    """keep at most `limit` findings, diversified: at most `per_key` per (kind, signature of each
-    message), so that a flood of one message (a known finding, say) cannot crowd out a different one"""
+    """keep at most `limit` findings, diversified: monitor failures first, then at most `per_key` per
+    (kind, signature with numbers blanked), so that a flood of one message (a known finding, or
+    thousands of numerically different disagreements) cannot crowd out a different one"""
+    import re as _re
+
+    def keys_of(f):
+        return {(f.get("kind"), _re.sub(r"[0-9]+", "#", str(t).split("|", 1)[0].strip())[:60]) for t in (f.get("text") or [""])}
+
     seen: Dict[Any, int] = {}
     first: List[Dict[str, Any]] = []
     rest: List[Dict[str, Any]] = []
-    for f in findings:
-        keys = {(f.get("kind"), str(t).split("|", 1)[0].strip()[:60]) for t in (f.get("text") or [""])}
+    ordered = [f for f in findings if f.get("kind") == "mon"] + [f for f in findings if f.get("kind") != "mon"]
+    for f in ordered:
+        keys = keys_of(f)
         if any(seen.get(k, 0) < per_key for k in keys):
             first.append(f)
             for k in keys:
